@@ -104,6 +104,13 @@ func e2Family(tier string, amevs []int64) []*Job {
 				jobs = append(jobs, job(e2scen(fmt.Sprintf("E2-poolfirst-rejected-block-N4-x%d-%s-%s", x, role, an), 4, x, a, s4), per))
 			}
 			if x == other || x == prim1 {
+				// own change view first (timeout while responses are stored and everybody has been heard), then the late
+				// proposal makes X (pre)commit, then change views for view 1 and for view 2 from everybody: the commit lock
+				// must hold although X itself asked to leave the view
+				s6 := E2Spec{Views: 1, Proposals: "A", Responses: "A", CVs: 2, MaxDepth: 11, StateCap: cap1}
+				jobs = append(jobs, job(e2scen(fmt.Sprintf("E2-own-cv-then-commit-N4-x%d-%s-%s", x, role, an), 4, x, a, s6), per))
+			}
+			if x == other || x == prim1 {
 				// traffic of the next height (proposal, responses, a full set of change views) is cached while X is still
 				// at height h; X then gets block h from the ledger (sync) and re-initialises: the cached change views are
 				// replayed inside Reset (nested view change)
